@@ -270,27 +270,32 @@ def Graph.snapshot (g : Graph) : Bytes := (g.snapshotAddrs.map encodeAddr).flatt
 
 /-! ### queries (answer, state after the query) -/
 
-/-- which of several peers on one address the scan over the `verified_peers` set meets first is unspecified;
-    `hint` resolves it (the harness passes the implementation's choice) -/
-def pick (hint : Option Key) (cands : List Peer) : Option Peer :=
-  match hint with
-  | some k => match cands.find? (fun p => decide (p.key = k)) with
-    | some p => some p
-    | none => cands.head?
-  | none => cands.head?
-
-def Net.getByAddr (s : Net) (a : Addr) (hint : Option Key) : Option Peer × Net :=
-  let ip1 := adel a s.ipCache
+/-- The peer `get_verified_by_address` returns.  Which of several verified peers on one address it is depends on the
+    iteration order of the `verified_peers` set and on what the cache happens to hold; every one of them is a correct
+    answer.  `hint` (the harness passes the implementation's choice) therefore wins whenever it names a verified peer
+    using the address; without a usable hint: a valid cache entry (the index still maps the key to the same object
+    generation and the peer still has the address), else the first peer of the scan. -/
+def Net.chooseByAddr (s : Net) (a : Addr) (hint : Option Key) : Option Peer :=
+  let cands := s.g.verified.filter (fun p => p.hasAddr a)
+  let hinted : Option Peer := match hint with
+    | some k => cands.find? (fun p => decide (p.key = k))
+    | none => none
   let cached : Option Peer := match aget a s.ipCache with
     | some (k, gen) =>
       if aget k s.byKey = some gen then s.g.verified.find? (fun p => decide (p.key = k) && p.hasAddr a) else none
     | none => none
-  match cached with
+  match hinted with
+  | some p => some p
+  | none => match cached with
+    | some p => some p
+    | none => cands.head?
+
+/-- pop the entry, answer, re-insert the answer at the young end (evicting the oldest entry beyond the cap) -/
+def Net.getByAddr (s : Net) (a : Addr) (hint : Option Key) : Option Peer × Net :=
+  let ip1 := adel a s.ipCache
+  match s.chooseByAddr a hint with
   | some p => (some p, { s with ipCache := lruPut ip1 a (p.key, s.genOf p.key) s.ipCap })
-  | none =>
-    match pick hint (s.g.verified.filter (fun p => p.hasAddr a)) with
-    | some p => (some p, { s with ipCache := lruPut ip1 a (p.key, s.genOf p.key) s.ipCap })
-    | none => (none, { s with ipCache := ip1 })
+  | none => (none, { s with ipCache := ip1 })
 
 def Net.getByKey (s : Net) (k : Key) : Option Peer :=
   if s.known k then s.g.find k else none
